@@ -32,7 +32,7 @@ type c04Desc struct {
 	TailLen int `json:"tail_bytes_in_one_transport_read,omitempty"`
 }
 
-var c04Terms = []string{"eof", "unexpected-eof", "error", "reset", "error+data", "eof+data"}
+var c04Terms = []string{"eof", "unexpected-eof", "error", "reset", "error+data", "eof+data", "temporary-error"}
 var c04Readers = []string{"Read", "Reader/1", "Reader/3", "Reader/64", "Reader/4096", "NetConn/5", "NetConn/4096", "wsjson", "Reader/5+failing-writes", "Read+failing-writes"}
 
 func init() {
@@ -81,6 +81,19 @@ func c04Gen(tier string, seed int64) []fw.Case {
 					}
 					dd := d
 					cases = append(cases, fw.Case{Name: fmt.Sprintf("%s/%s/%s/%s/%s", d.Role, paramsKey(d.Params), d.Kind, d.Term, d.Reader), Desc: dd, Run: func(r *fw.R) { c04Run(r, dd) }})
+				}
+			}
+		}
+	}
+	// through the net.Conn adapter: the peer closes (1000 / 1001, which read as io.EOF between messages) in the
+	// middle of a message - the stream may not end cleanly there
+	for _, role := range bothRoles {
+		for _, code := range []int{1000, 1001} {
+			for _, params := range []wire.Params{{}, allParams[1]} {
+				for _, bs := range []int{1, 16, 4096} {
+					d := c04Desc{Role: role, Params: params, Seed: rng.U64(), Term: fmt.Sprintf("close-%d-between-fragments", code), Reader: fmt.Sprintf("NetConn/%d", bs), Kind: "netconn-close-mid-message", Cuts: "-"}
+					dd := d
+					cases = append(cases, fw.Case{Name: fmt.Sprintf("%s/%s/netconn-close-mid-message/%d/%d", d.Role, paramsKey(d.Params), code, bs), Desc: dd, Run: func(r *fw.R) { c04NetConnCloseMid(r, dd, code, bs) }})
 				}
 			}
 		}
@@ -246,6 +259,8 @@ func c04Run(r *fw.R, d c04Desc) {
 	}
 	var fk xport.FaultKind
 	switch strings.TrimSuffix(d.Term, "+data") {
+	case "temporary-error":
+		fk = xport.FaultTemporary
 	case "eof":
 		fk = xport.FaultEOF
 	case "unexpected-eof":
@@ -293,6 +308,10 @@ func c04Cut(r *fw.R, d c04Desc, s *Script, stream []byte, k int, fk xport.FaultK
 		_ = k
 	}
 
+	if fk == xport.FaultTemporary {
+		c04Temporary(r, d, c, peerEnd, stream, k, limit)
+		return
+	}
 	ref := &wire.RefEndpoint{Server: d.Role == RoleServer, P: d.Params, Limit: limit}
 	effects, term := ref.Run(stream[:k])
 	ctx, cancel := deadlineCtx(30 * time.Second)
@@ -437,4 +456,90 @@ func (s *Script) frameHeaderLenAt(off int) int {
 		}
 	}
 	return 2
+}
+
+// c04Temporary: after k bytes ONE transport Read fails with a transient error (net.Error, Temporary() == true) and
+// the stream then goes on. Whether the library gives up (read error) or carries on is its choice; what it may
+// not do is report a clean end of a message whose bytes are not exactly the message's.
+func c04Temporary(r *fw.R, d c04Desc, c *websocket.Conn, peerEnd *xport.End, stream []byte, k int, limit int64) {
+	if strings.HasPrefix(d.Reader, "NetConn") || d.Reader == "wsjson" {
+		return
+	}
+	peerEnd.CloseWrite()
+	ref := &wire.RefEndpoint{Server: d.Role == RoleServer, P: d.Params, Limit: limit}
+	effects, _ := ref.Run(stream)
+	var want []wire.Msg
+	for _, e := range effects {
+		if e.Kind == "msg" {
+			want = append(want, e.Msg)
+		}
+	}
+	ctx, cancel := deadlineCtx(30 * time.Second)
+	defer cancel()
+	m := readMode{Kind: "Read"}
+	if strings.HasPrefix(d.Reader, "Reader/") {
+		m.Kind = "Reader"
+		fmt.Sscanf(strings.TrimSuffix(d.Reader, "+failing-writes"), "Reader/%d", &m.Buf)
+	}
+	out := readLoop(ctx, c, m, 0)
+	r.Count("cut_points_executed", 1)
+	r.Count("transient_errors_injected", 1)
+	r.Key("%s/%s/temporary-error/%s/delivered-all=%v", d.Role, paramsKey(d.Params), d.Reader, len(out.Msgs) == len(want))
+	what := fmt.Sprintf("%s %s reader=%s: one transient transport error after %d of %d bytes", d.Role, paramsKey(d.Params), d.Reader, k, len(stream))
+	if len(out.Msgs) > len(want) {
+		r.Violate("C04/message-invented/temporary-error", fmt.Sprintf("%s: %d messages reported complete, the stream holds %d", what, len(out.Msgs), len(want)), "")
+		return
+	}
+	for i, g := range out.Msgs {
+		if !bytes.Equal(g.Data, want[i].Data) {
+			r.Violate("C04/clean-end-on-damaged-message/temporary-error", fmt.Sprintf("%s: message %d was reported complete with %d bytes that differ from the %d sent at byte %d", what, i, len(g.Data), len(want[i].Data), firstDiff(g.Data, want[i].Data)), "")
+			return
+		}
+	}
+	if out.HasPartial && len(out.Msgs) < len(want) && !bytes.HasPrefix(want[len(out.Msgs)].Data, out.Partial) {
+		r.Violate("C04/partial-not-prefix/temporary-error", fmt.Sprintf("%s: the %d bytes handed out before the error are not a prefix of message %d", what, len(out.Partial), len(out.Msgs)), "")
+	}
+}
+
+func c04NetConnCloseMid(r *fw.R, d c04Desc, code, bs int) {
+	r.SetSample(d)
+	c, _, peerEnd, err := libConn(d.Role, d.Params, 0, xport.Plan{}, xport.Plan{NoTap: true})
+	if err != nil {
+		r.Violate("C04/attach-failed", err.Error(), "")
+		return
+	}
+	defer c.CloseNow()
+	defer peerEnd.Close()
+	peer := newRawPeer(peerEnd, d.Role, d.Params, d.Seed)
+	peer.Start()
+	rng := fw.NewRand(d.Seed)
+	complete := rng.Bytes(300)
+	part := rng.Bytes(200)
+	peer.Send(wire.Data(wire.OpBinary, true, complete))
+	peer.Send(wire.Data(wire.OpBinary, false, part))
+	peer.Send(wire.Close(wire.ClosePayload(code, "")))
+	ctx, cancel := deadlineCtx(30 * time.Second)
+	defer cancel()
+	nc := websocket.NetConn(ctx, c, websocket.MessageBinary)
+	var got []byte
+	buf := make([]byte, bs)
+	var rerr error
+	for {
+		n, err := nc.Read(buf)
+		got = append(got, buf[:n]...)
+		if err != nil {
+			rerr = err
+			break
+		}
+	}
+	r.Count("cut_points_executed", 1)
+	r.Key("%s/%s/netconn-close-mid-message/%d", d.Role, paramsKey(d.Params), code)
+	full := append(append([]byte(nil), complete...), part...)
+	what := fmt.Sprintf("%s %s NetConn buffer %d: Close(%d) after the first fragment of the second message", d.Role, paramsKey(d.Params), bs, code)
+	if !bytes.HasPrefix(full, got) || len(got) < len(complete) {
+		r.Violate("C04/netconn-bytes-not-prefix/close-mid-message", fmt.Sprintf("%s: %d bytes delivered (complete message: %d, fragment: %d), first difference at %d", what, len(got), len(complete), len(part), firstDiff(got, full[:min(len(got), len(full))])), "")
+	}
+	if rerr == io.EOF {
+		r.Violate("C04/netconn-clean-eof-inside-message", fmt.Sprintf("%s: the stream ended with io.EOF although the last message never got its final frame (%d bytes delivered)", what, len(got)), "")
+	}
 }
